@@ -179,6 +179,93 @@ func controlTarEvents(ctl []tarMember, isDeb bool) (evs []M, err error) {
 	return evs, nil
 }
 
+// ---- foreign readers: GNU tar and GNU ar read the same bytes and must see the same members (names, in order, and for
+// regular files the sizes) as the Go decoders above, which share archive/tar with the code under test.
+var gnuTarPath, gnuArPath = lookTool("tar"), lookTool("ar")
+
+func lookTool(n string) string {
+	p, err := exec.LookPath(n)
+	if err != nil {
+		return ""
+	}
+	return p
+}
+
+// gnuTarAgrees lists a tar stream (gz: gzip-compressed, possibly several concatenated gzip members) with GNU tar and
+// compares with the members the Go reader found.  "na" when tar is not installed.
+func gnuTarAgrees(stream []byte, gz bool, mem []tarMember) string {
+	if gnuTarPath == "" {
+		return "na"
+	}
+	args := []string{"--quoting-style=literal", "--numeric-owner", "-tvf", "-"}
+	if gz {
+		args = append([]string{"-z"}, args...)
+	}
+	cmd := exec.Command(gnuTarPath, args...)
+	cmd.Env = append(os.Environ(), "LC_ALL=C", "TZ=UTC")
+	cmd.Stdin = bytes.NewReader(stream)
+	var so, se bytes.Buffer
+	cmd.Stdout, cmd.Stderr = &so, &se
+	if err := cmd.Run(); err != nil {
+		msg := strings.TrimSpace(se.String())
+		if len(msg) > 200 {
+			msg = msg[:200]
+		}
+		return "gnu tar rejects the stream: " + safeStr(msg)
+	}
+	lines := strings.Split(strings.TrimRight(so.String(), "\n"), "\n")
+	if so.Len() == 0 {
+		lines = nil
+	}
+	if len(lines) != len(mem) {
+		return fmt.Sprintf("gnu tar lists %d members, the decoder %d", len(lines), len(mem))
+	}
+	for i, ln := range lines {
+		// "-rw-r--r-- 0/0  size date time name[ -> target]"
+		f := strings.Fields(ln)
+		if len(f) < 6 {
+			return "unparsable listing line " + safeStr(ln)
+		}
+		name := mem[i].Name
+		want := name
+		if mem[i].Type == "2" {
+			want = name + " -> " + mem[i].Link
+		} else if mem[i].Type == "1" {
+			want = name + " link to " + mem[i].Link
+		}
+		if !strings.HasSuffix(ln, " "+want) {
+			return fmt.Sprintf("member %d: gnu tar %s, the decoder %s", i+1, safeStr(ln), safeStr(want))
+		}
+		if mem[i].Type == "0" && f[2] != strconv.Itoa(len(mem[i].Data)) {
+			return fmt.Sprintf("member %d (%s): gnu tar size %s, the decoder %d", i+1, safeStr(name), f[2], len(mem[i].Data))
+		}
+	}
+	return "ok"
+}
+
+func gnuArAgrees(b []byte, mem []arMember, scratch string, id int) string {
+	if gnuArPath == "" {
+		return "na"
+	}
+	p := filepath.Join(scratch, fmt.Sprintf("ar-%d.deb", id))
+	if os.WriteFile(p, b, 0o644) != nil {
+		return "na"
+	}
+	defer os.Remove(p)
+	out, err := exec.Command(gnuArPath, "t", p).CombinedOutput()
+	if err != nil {
+		return "gnu ar rejects the archive: " + safeStr(strings.TrimSpace(string(out)))
+	}
+	var names []string
+	for _, m := range mem {
+		names = append(names, m.Name)
+	}
+	if got := strings.Split(strings.TrimRight(string(out), "\n"), "\n"); strings.Join(got, "|") != strings.Join(names, "|") {
+		return fmt.Sprintf("gnu ar lists %v, the decoder %v", got, names)
+	}
+	return "ok"
+}
+
 func emitDeb(b []byte, scratch string, id int) ([]M, error) {
 	var evs []M
 	mem, err := parseAr(b)
@@ -195,6 +282,7 @@ func emitDeb(b []byte, scratch string, id int) ([]M, error) {
 				return ""
 			}(), "comp": sniffCompression(m.Data)})
 	}
+	evs = append(evs, structEv("foreign:ar", gnuArAgrees(b, mem, scratch, id)))
 	for _, m := range mem {
 		switch {
 		case strings.HasPrefix(m.Name, "control.tar"):
@@ -210,6 +298,7 @@ func emitDeb(b []byte, scratch string, id int) ([]M, error) {
 			if err != nil {
 				return evs, fmt.Errorf("control tar: %w", err)
 			}
+			evs = append(evs, structEv("foreign:tar:control", gnuTarAgrees(craw, false, ctl)))
 			ce, err := controlTarEvents(ctl, true)
 			evs = append(evs, ce...)
 			if err != nil {
@@ -231,6 +320,7 @@ func emitDeb(b []byte, scratch string, id int) ([]M, error) {
 			if err != nil {
 				return evs, fmt.Errorf("data tar: %w", err)
 			}
+			evs = append(evs, structEv("foreign:tar:data", gnuTarAgrees(raw, false, dm)))
 			for i, t := range dm {
 				evs = append(evs, tarEv("data", i+1, t))
 				if t.Type == "0" && strings.HasSuffix(t.Name, "/changelog.Debian.gz") {
@@ -276,6 +366,7 @@ func emitIpk(b []byte) ([]M, error) {
 	if err != nil {
 		return evs, fmt.Errorf("ipk outer tar: %w", err)
 	}
+	evs = append(evs, structEv("foreign:tar:outer", gnuTarAgrees(b, true, outer)))
 	for i, m := range outer {
 		d := digestsOf(m.Data)
 		txt := ""
@@ -296,6 +387,7 @@ func emitIpk(b []byte) ([]M, error) {
 			if err != nil {
 				return evs, err
 			}
+			evs = append(evs, structEv("foreign:tar:control", gnuTarAgrees(m.Data, true, ctl)))
 			ce, err := controlTarEvents(ctl, false)
 			evs = append(evs, ce...)
 			if err != nil {
@@ -311,6 +403,7 @@ func emitIpk(b []byte) ([]M, error) {
 			if err != nil {
 				return evs, err
 			}
+			evs = append(evs, structEv("foreign:tar:data", gnuTarAgrees(m.Data, true, dm)))
 			for i, t := range dm {
 				evs = append(evs, tarEv("data", i+1, t))
 			}
@@ -376,6 +469,12 @@ func emitApk(b []byte) ([]M, error) {
 		default:
 			evs = append(evs, structEv("apk_whole_stream", "ok"))
 		}
+		// ... and so does GNU tar given the file as it is (gzip members concatenated, cut tar segments)
+		var all []tarMember
+		for _, s := range segs {
+			all = append(all, s.mem...)
+		}
+		evs = append(evs, structEv("foreign:tar:whole", gnuTarAgrees(b, true, all)))
 	}
 	for _, s := range segs {
 		for i, t := range s.mem {
@@ -406,6 +505,7 @@ func emitArch(b []byte) ([]M, error) {
 	if err != nil {
 		return evs, fmt.Errorf("archlinux tar: %w", err)
 	}
+	evs = append(evs, structEv("foreign:tar:outer", gnuTarAgrees(raw, false, mem)))
 	for i, t := range mem {
 		evs = append(evs, tarEv("data", i+1, t))
 		switch t.Name {
